@@ -115,7 +115,7 @@ theorem Rel.mark_el {rows : List CRow} {M : Maps} {k : Nat} {s : St} {st : P1} {
     exact ⟨hv.1, hv.2.1, hv.2.2.1, by rw [← helo j hjk]; exact hv.2.2.2⟩
   refine ⟨h.gsize, h.root, by rw [hn, hr]; exact h.grp, ?_, ?_, ?_, by rw [hf]; exact h.tgtfr, h.stack, h.ids, h.idok, h.prev,
     h.srcok, h.tgtok, h.args, ?_, ?_, by rw [hn, hr]; exact h.rne, by rw [hr]; exact h.rnone, by rw [hr]; exact h.rnoop,
-    h.rfresh⟩
+    h.rfresh, h.names.congr (fun i _ _ _ _ _ => by rw [hn])⟩
   · intro j c' hj hc' hn'
     rw [helo j (by omega), hn]; exact h.grpN j c' hj hc' hn'
   · intro j c' hc' hn'
@@ -149,7 +149,7 @@ theorem Rel.mark_fresh {rows : List CRow} {M : Maps} {k : Nat} {s : St} {st : P1
     fun _ _ hv => ⟨hv.1, hv.2.1, hv.2.2.1, by rw [← he]; exact hv.2.2.2⟩
   refine ⟨h.gsize, h.root, by rw [hn, hr]; exact h.grp, by rw [hn, he]; exact h.grpN, by rw [he]; exact h.elno, ?_, ?_,
     h.stack, h.ids, h.idok, h.prev, h.srcok, h.tgtok, h.args, ?_, ?_, by rw [hn, hr]; exact h.rne,
-    by rw [hr]; exact h.rnone, by rw [hr]; exact h.rnoop, h.rfresh⟩
+    by rw [hr]; exact h.rnone, by rw [hr]; exact h.rnoop, h.rfresh, h.names.congr (fun i _ _ _ _ _ => by rw [hn])⟩
   · intro j hj
     rw [he]
     by_cases hjk : j = k
@@ -272,10 +272,11 @@ theorem noop_row_simN (rows : List CRow) (outF : List OutEdge) (g : Good rows ou
       cases hf' : M.fr k with
       | false => rfl
       | true => have := (h.frel k hf').2.1; omega
-    have hfinal := fun rowIds ids names hids hlt =>
+    have hfinal := fun rowIds ids hids hlt =>
       (r0.close_row hc hnode (.inr hM1el) (fun hh => by rw [hM1fr, hfrk] at hh; cases hh)
         (Grp.noop (new.map (encP rows)) none) (fun hh => by rw [hnn] at hh; cases hh)
-        (fun _ => ⟨_, _, rfl, fun hh => by rw [hM1el] at hh; cases hh⟩) rowIds ids names hids hlt).mark_fresh hc hnn hM1el
+        (fun _ => ⟨_, _, rfl, fun hh => by rw [hM1el] at hh; cases hh⟩) rowIds ids s.names hids hlt
+        (r0.names.step_noop hc hnn)).mark_fresh hc hnn hM1el
         (fun e he hte => by
           have := h.tgtok e he k hte
           rcases this with h1 | h1
@@ -423,7 +424,7 @@ theorem noop_row_simN (rows : List CRow) (outF : List OutEdge) (g : Good rows ou
     · simp only [hrid, List.isEmpty_nil, if_true]
       wp_simp
       refine ⟨M2, { st with prev := some k, ids := st.ids }, pnd ++ new, ?_, ?_⟩
-      · have := hfinal s.rowIds st.ids s.names h.ids
+      · have := hfinal s.rowIds st.ids h.ids
           (fun p hp => by have := h.idok p hp; exact ⟨by omega, this.2⟩)
         simpa [h.stack] using this
       · have := hsched _ s.rowIds s.names st.ids rfl
@@ -436,7 +437,7 @@ theorem noop_row_simN (rows : List CRow) (outF : List OutEdge) (g : Good rows ou
     · simp only [List.isEmpty_iff, hrid, if_false]
       wp_simp
       refine ⟨M2, { st with prev := some k, ids := (c.row.rowId, k) :: st.ids }, pnd ++ new, ?_, ?_⟩
-      · have := hfinal ((c.row.rowId, s.groups.size) :: s.rowIds) ((c.row.rowId, k) :: st.ids) s.names
+      · have := hfinal ((c.row.rowId, s.groups.size) :: s.rowIds) ((c.row.rowId, k) :: st.ids)
           (by simp [h.ids, hsz])
           (fun p hp => by
             simp only [List.mem_cons] at hp
